@@ -6,6 +6,19 @@ pub type FileLocation = std::ops::Range<usize>;
 #[verifier::external_body] pub struct TypeKnowledge { _o: Vec<u8> }
 #[verifier::external_body] pub struct DegreeKnowledge { _o: Vec<u8> }
 #[verifier::external_body] pub struct VariableKnowledge { _o: Vec<u8> }
+#[verifier::external_body] pub struct VariableType { _o: Vec<u8> }
+#[verifier::external_body] pub struct AssignOp { _o: Vec<u8> }
+#[verifier::external_body] #[verifier::accept_recursive_types(T)] pub struct NonEmptyVec<T> { _o: Vec<T> }
+pub type Index = usize;
+pub type Version = usize;
+// a variable name carries an SSA version or not (ir.rs: `version: Option<Version>`) (T3)
+pub uninterp spec fn vn_versioned(v: VariableName) -> bool;
+impl VariableName {
+    #[verifier::external_body]
+    pub fn version(&self) -> (r: &Option<Version>)
+        ensures r is Some <==> vn_versioned(*self)
+    { unimplemented!() }
+}
 // the value environment: a finite map from variable names to constants (value_meta.rs: HashMap::get) (T3)
 pub uninterp spec fn venv_map(e: ValueEnvironment) -> Map<VariableName, ValueReduction>;
 impl ValueEnvironment {
@@ -14,6 +27,16 @@ impl ValueEnvironment {
         ensures
             r is Some <==> venv_map(*self).dom().contains(*name),
             r is Some ==> *r.unwrap() == venv_map(*self)[*name],
+    { unimplemented!() }
+    // value_meta.rs: `if let Some(previous) = self.reduces_to.insert(name.clone(), value.clone()) { assert_eq!(previous, *value); false } else { true }`
+    // Partial correctness: IF the call returns, an earlier entry for the name was equal to the new value. That the
+    // assert_eq! cannot fire is NOT established here (see not_covered of C06 / C01).
+    #[verifier::external_body]
+    pub fn add_variable(&mut self, name: &VariableName, value: &ValueReduction) -> (r: bool)
+        ensures
+            venv_map(*final(self)) == venv_map(*old(self)).insert(*name, *value),
+            env_prime(*final(self)) == env_prime(*old(self)),
+            venv_map(*old(self)).dom().contains(*name) ==> venv_map(*old(self))[*name] == *value,
     { unimplemented!() }
 }
 
